@@ -4,9 +4,18 @@ C13 (phase 2) — the float arithmetic of number.rs inside the model.
 `Tera.SoftFloat` (Model/SoftFloat.lean) defines IEEE-754 binary64 `+ - * /`, `fmod` and Rust std's
 `rem_euclid` / `div_euclid` on the exact dyadic type `F64`; the harness `c13f` compares it bit for
 bit with the real engine and with the hardware on every run.  The theorems here say that this
-model *is* IEEE arithmetic: every operation returns the exact result rounded once to the nearest
-representable value, ties to even (T1, T2), `fmod` is exact (T3), and the float paths of
-`Tera.add/sub/mul/div` (Model/Number.lean) instantiated with `softOps` inherit this (T4).
+model *is* IEEE arithmetic:
+* T1 `roundDyadic_nearest`, `roundDyadic_overflow_iff`, `roundDyadic_bits_roundtrip`,
+  `roundDyadic_well_defined`, `roundDyadic_neg`: the one rounding function is round-to-nearest,
+  ties-to-even, to 53 bits with gradual underflow, overflowing exactly from `MAX + ulp/2`;
+* T2 `add/sub/mul/div_correctly_rounded`, `special_cases`, `results_canonical`: each operation
+  returns the exact result of the operands' exact values rounded once, with the IEEE sign and
+  special-operand tables;
+* T3 `fmod_exact` (+ `ofBits_isF64`, `ofIntRNE_representable`, `units_value`): `%` of C is exact;
+  `rem_euclid_rounded`, `trunc_exact`, `div_euclid_steps`: the two Euclidean operations of std;
+* T4 `float_contagion_soft/_exact`, `div_exact`, `rem_contagion_exact`, `floordiv_contagion_soft`,
+  `add_comm`, `mul_comm`, `sub_self`: the float paths of `Tera.add/sub/mul/div/rem/floorDiv`
+  (Model/Number.lean) instantiated with `softOps` inherit all this.
 
 Conventions.  The exact value of a finite `x : F64` is the rational `x.num / x.den` (Model/F64).
 Distances are cross-multiplied to integers in units of `2^-1074`:
@@ -160,8 +169,9 @@ theorem special_cases (x : F64) (s t : Bool) (m : Nat) (e : Int) :
 
 /-! ## T3 — `fmod` (Rust `%` on f64) is exact -/
 
-/-- **T3.** For representable finite operands (`IsF64`: significand below `2^53`, exponent within
-`-1074 .. 971`, as decoded from any finite bit pattern) and `b ≠ 0`, in units of `2^-1074`
+/-- **T3.** For representable finite operands (`IsF64`: significand of at most 53 bits, exponent
+within `-1074 .. 971`: every finite bit pattern, `ofBits_isF64`, and every converted 128-bit
+integer, `ofIntRNE_isF64`) and `b ≠ 0`, in units of `2^-1074`
 (`units x` is the integer `x * 2^1074`, `units_value`):
 `units (fmod a b) = Int.tmod (units a) (units b)` — the truncated-division remainder, with no
 rounding.  Hence `a = q * b + r` with the integer `q = trunc (a / b)`, `|r| < |b|`; the result is
@@ -181,7 +191,7 @@ theorem fmod_exact (a b : F64) (ha : IsF64 a) (hb : IsF64 b) (hz : b.isZero = fa
     have : (2 : Int) ^ (eb + 1074).toNat ≠ 0 := by positivity
     have h' : (mb : Int) ≠ 0 := by exact_mod_cast hmb
     exact mul_ne_zero (mul_ne_zero (sgn_ne_zero sb) h') this
-  refine ⟨⟨h2, by omega, by omega⟩, rfl, h5, ?_, ?_⟩
+  refine ⟨⟨Or.inl h2, by omega, by omega⟩, rfl, h5, ?_, ?_⟩
   · rw [h5]
     have := Int.mul_tdiv_add_tmod (units (.fin sa ma ea)) (units (.fin sb mb eb))
     linarith
@@ -202,6 +212,51 @@ theorem rem_euclid_rounded (a b : F64) (ha : IsF64 a) (hb : IsF64 b) (hz : b.isZ
   rename_i sa ma ea sb mb eb
   have hmb : mb ≠ 0 := by simpa [F64.isZero] using hz
   exact remEuclid_rounded sa sb ma mb ea eb ha hb hmb
+
+/-- **`trunc`.** For a representable operand `f64::trunc` is exact: the canonical float whose value
+is the integer part `|x.num| / x.den` (natural-number division), with the sign of `x` (also for a
+zero result: `trunc(-0.5) = -0.0`). -/
+theorem trunc_exact (x : F64) (hx : IsF64 x) :
+    ∃ m k : Nat, trunc x = .fin (signBit x) m ((k : Int) - 1074) ∧
+      m * 2 ^ k = (x.num.natAbs / x.den) * 2 ^ 1074 ∧
+      m < 2 ^ 53 ∧ (2 ^ 52 ≤ m ∨ k = 0) ∧ k ≤ 2045 := by
+  cases x <;> simp only [IsF64] at hx
+  rename_i s m e
+  exact trunc_fin_exact s m e hx
+
+/-- **`div_euclid` (the `//` of number.rs on floats).** For representable operands and `b ≠ 0` the
+std algorithm reads, with the comparisons against `0.0` decided on the exact integer values:
+`q = trunc (a / b)` — the correctly rounded quotient (T2) truncated exactly (`trunc_exact`) — and,
+when the exact C remainder `tmod (units a) (units b)` is negative, `q - 1` for `b > 0` and `q + 1`
+for `b < 0`, each a correctly rounded `sub` / `add` (T2). -/
+theorem div_euclid_steps (a b : F64) (ha : IsF64 a) (hb : IsF64 b) (hz : b.isZero = false) :
+    divEuclid a b =
+      if Int.tmod (units a) (units b) < 0 then
+        (if 0 < units b then SoftFloat.sub (trunc (SoftFloat.div a b)) one
+         else SoftFloat.add (trunc (SoftFloat.div a b)) one)
+      else trunc (SoftFloat.div a b) := by
+  obtain ⟨hf, _, hu, _, _⟩ := fmod_exact a b ha hb hz
+  have fin_of : ∀ x : F64, IsF64 x → x.isFinite = true := by
+    intro x hx; cases x <;> first | exact hx.elim | rfl
+  have hfin : (fmod a b).isFinite = true := fin_of _ hf
+  have hbfin : b.isFinite = true := fin_of _ hb
+  obtain ⟨l1, _⟩ := lt_gt_zero_units (fmod a b) hfin
+  obtain ⟨_, g2⟩ := lt_gt_zero_units b hbfin
+  rw [hu] at l1
+  unfold divEuclid
+  simp only []
+  by_cases c1 : Int.tmod (units a) (units b) < 0
+  · have : F64.lt (fmod a b) ZERO_F = true := l1.mpr c1
+    simp only [this, c1, if_true]
+    by_cases c2 : 0 < units b
+    · have : F64.gt b ZERO_F = true := g2.mpr c2
+      simp only [this, c2, if_true]
+    · have : ¬ (F64.gt b ZERO_F = true) := fun h => c2 (g2.mp h)
+      simp only [this, c2, if_false]
+      simp
+  · have : ¬ (F64.lt (fmod a b) ZERO_F = true) := fun h => c1 (l1.mp h)
+    simp only [this, c1, if_false]
+    simp
 
 /-- `units x` is the exact value of `x` (`x.num / x.den`) times `2^1074`. -/
 theorem units_value (s : Bool) (m : Nat) (e : Int) (he : -1074 ≤ e) :
@@ -225,6 +280,14 @@ theorem ofBits_isF64 (b : Nat) (hf : (F64.ofBits b).isFinite = true) :
     · simp only [h2, Bool.false_eq_true, if_false, IsF64]
       have h2' : b / 2 ^ 52 % 2048 ≠ 0 := by simpa using h2
       omega
+
+/-- Every integer operand of number.rs (i128) converts to a representable, and if non-zero to a
+non-zero, float: T3 and `rem_euclid_rounded` cover the mixed float / integer operands too. -/
+theorem ofIntRNE_representable (n : Int) (hn : inI128 n) :
+    IsF64 (F64.ofIntRNE n) ∧ (n ≠ 0 → (F64.ofIntRNE n).isZero = false) := by
+  refine ⟨ofIntRNE_isF64 n ?_, ofIntRNE_isZero n⟩
+  simp only [inI128, I128_MIN, I128_MAX] at hn
+  omega
 
 /-! ## T4 — corollaries for the arithmetic of number.rs -/
 
@@ -279,6 +342,48 @@ theorem div_exact (p : F64 → F64 → F64) (a b : Value) (na nb : Number)
     (ha : a.asNumber = some na) (hb : b.asNumber = some nb) (hz : nb.isZero = false) :
     Tera.div (softOps p) a b = .ok (.f64 (SoftFloat.div na.toFloat nb.toFloat)) :=
   C13.C13_div_is_float (softOps p) a b na nb ha hb hz
+
+/-- **T4 (`%` with a float operand).** `x % n` and `n % x` for a representable float `x` and an
+integer `n` in i128 (non-zero divisor): the engine model returns the Euclidean remainder of the
+exact values of `x` and of the integer converted to f64 (`y`), rounded once; see
+`rem_euclid_rounded`. -/
+theorem rem_contagion_exact (p : F64 → F64 → F64) (x : F64) (hx : IsF64 x)
+    {v : Value} {n : Int} (hv : C13.IntVal v n) (hn : inI128 n) :
+    (n ≠ 0 → Tera.rem (softOps p) (.f64 x) v = .ok (.f64
+      (if units x % units (F64.ofIntRNE n) = 0 then zero (signBit x)
+       else roundDyadic false (units x % units (F64.ofIntRNE n)).toNat (2 ^ 1074)))) ∧
+    (x.isZero = false → Tera.rem (softOps p) v (.f64 x) = .ok (.f64
+      (if units (F64.ofIntRNE n) % units x = 0 then zero (signBit (F64.ofIntRNE n))
+       else roundDyadic false (units (F64.ofIntRNE n) % units x).toNat (2 ^ 1074)))) := by
+  have hxn : (Value.f64 x).asNumber = some (.float x) := rfl
+  have hi := hv.asNumber hn
+  obtain ⟨hy, hy0⟩ := ofIntRNE_representable n hn
+  constructor
+  · intro hn0
+    rw [← rem_euclid_rounded x _ hx hy (hy0 hn0)]
+    have hz : (Number.int n).isZero = false := by simp [Number.isZero, hn0]
+    simp [Tera.rem, hxn, hi, hz, Number.isFloat, Number.toFloat, softOps]
+  · intro hx0
+    rw [← rem_euclid_rounded _ x hy hx hx0]
+    have hz : (Number.float x).isZero = false := by simp [Number.isZero, hx0]
+    simp [Tera.rem, hxn, hi, hz, Number.isFloat, Number.toFloat, softOps]
+
+/-- **T4 (`//` with a float operand).** `x // n` and `n // x` (non-zero divisor) are std's
+`div_euclid` on `x` and the converted integer, as described by `div_euclid_steps`. -/
+theorem floordiv_contagion_soft (p : F64 → F64 → F64) (x : F64)
+    {v : Value} {n : Int} (hv : C13.IntVal v n) (hn : inI128 n) :
+    (n ≠ 0 → Tera.floorDiv (softOps p) (.f64 x) v = .ok (.f64 (divEuclid x (F64.ofIntRNE n)))) ∧
+    ((x.isFinite && x.isZero) = false →
+      Tera.floorDiv (softOps p) v (.f64 x) = .ok (.f64 (divEuclid (F64.ofIntRNE n) x))) := by
+  have hxn : (Value.f64 x).asNumber = some (.float x) := rfl
+  have hi := hv.asNumber hn
+  constructor
+  · intro hn0
+    have hz : (Number.int n).isZero = false := by simp [Number.isZero, hn0]
+    simp [Tera.floorDiv, hxn, hi, hz, Number.isFloat, Number.toFloat, softOps]
+  · intro hx0
+    have hz : (Number.float x).isZero = false := by simpa [Number.isZero] using hx0
+    simp [Tera.floorDiv, hxn, hi, hz, Number.isFloat, Number.toFloat, softOps]
 
 /-- **T4.** Float addition and multiplication are commutative (bit for bit, all operands). -/
 theorem add_comm (a b : F64) : SoftFloat.add a b = SoftFloat.add b a := by
